@@ -194,15 +194,23 @@ def allReferences (U : UnicodeOps) (d : ParsedData) : List Str :=
 def ImportedType.lt (a b : ImportedType) : Bool :=
   Str.lt a.baseCrate b.baseCrate || (a.baseCrate == b.baseCrate && Str.lt a.typeName b.typeName)
 
+/-- the candidates with the smallest crate name (`String: Ord`, i.e. `Str.le`) -/
+def minCrate (cands : List ImportedType) : List ImportedType :=
+  cands.filter fun i => cands.all fun j => Str.le i.baseCrate j.baseCrate
+
 /-- `reconcile_referenced_types`: keep the imports that are referenced by the typeshared types and
-not defined locally, plus wildcard imports.  `find` on a `HashSet` returns *some* matching import:
-when a type name is imported from two crates the choice depends on the hash order; the model
-takes `pick` as that choice. -/
+not defined locally, plus wildcard imports.  `find_type` takes, among the imports of that name in
+the `HashSet`, the one whose crate name is smallest (`filter(..).min_by_key(|imp| &imp.base_crate)`,
+since the `fix:` commit "resolve a type name imported from several crates the same way in every
+run"; it was `find`, i.e. *some* matching import).  `min_by_key` returns the first of the minimal
+elements in the set's iteration order: the model keeps `pick` as that choice, now restricted to
+the candidates with the smallest crate name — which all are the same import
+(`TsV.C06M.reconcileReferencedTypes_pick`: the result does not depend on `pick`). -/
 def reconcileReferencedTypes (U : UnicodeOps) (pick : List ImportedType → Option ImportedType)
     (d : ParsedData) : ParsedData :=
   let refs := (allReferences U d).eraseDups
   let nonLocal := refs.filter fun r => !d.typeNames.contains r
-  let found := nonLocal.filterMap fun name => pick (d.importTypes.filter (·.typeName == name))
+  let found := nonLocal.filterMap fun name => pick (minCrate (d.importTypes.filter (·.typeName == name)))
   let wild := d.importTypes.filter (·.typeName == s%"*")
   { d with importTypes := (found ++ wild).eraseDups }
 
@@ -225,13 +233,6 @@ def parseFile (E : Ext) (ctx : ParseContext) (pick : List ImportedType → Optio
     if isEmpty d then pure none
     else if d.multiFile then pure (some (reconcileReferencedTypes E.U pick d))
     else pure (some d)
-
-/-- type names for which `HashSet::find` in `reconcile_referenced_types` has more than one
-candidate (the same name imported from two crates): the result then depends on the hash order -/
-def ambiguousImports (d : ParsedData) : List Str :=
-  ((d.importTypes.filter fun i => i.typeName != s%"*").filterMap fun i =>
-    if d.importTypes.any fun j => j.typeName == i.typeName && j.baseCrate != i.baseCrate
-    then some i.typeName else none).eraseDups
 
 end Visitor
 end TsV
